@@ -20,6 +20,11 @@ _RealSolver = _ps.Solver
 
 class Spy:
     log = None
+    limit = None      # max number of models the enumeration may yield during this call
+
+
+class EnumOverflow(Exception):
+    """the implementation asked pysat for more models than valid assignments exist (runaway enumeration)"""
 
 
 def _as_clauses(formula):
@@ -60,6 +65,8 @@ class SpySolver(_RealSolver):
         for m in super().enum_models(*a, **kw):
             if Spy.log is not None:
                 Spy.log["enum"].append(list(m))
+                if Spy.limit is not None and len(Spy.log["enum"]) > Spy.limit:
+                    raise EnumOverflow(f"more than {Spy.limit} models enumerated")
             yield m
 
 
@@ -201,8 +208,9 @@ def clause_set(cls):
 
 
 # ------------------------------------------------------------------ running koala under the recorder
-def spy_call(f, *a, **kw):
+def spy_call(f, *a, limit=None, **kw):
     Spy.log = {"clauses": [], "models": [], "enum": [], "solve": []}
+    Spy.limit = limit
     try:
         try:
             r = f(*a, **kw)
@@ -211,6 +219,7 @@ def spy_call(f, *a, **kw):
             return ("exc", e), Spy.log
     finally:
         Spy.log = None
+        Spy.limit = None
 
 
 def solver_contract_bad(log):
@@ -238,6 +247,66 @@ def solver_contract_bad(log):
     if len({tuple(m) for m in log["enum"]}) != len(log["enum"]):
         return "enum_models repeated a model"
     return None
+
+
+def projected_models_equal(captured, model_cnf, N, limit):
+    """Fallback of K(i) when the clause sets differ syntactically (e.g. another cardinality encoding with
+    auxiliary variables): are the two formulas equivalent on the reserved variables 1..N, with every
+    projected model having exactly one extension (so that enumeration stays exact)?  Decided by enumerating
+    both with the real solver, independently of koala; only attempted when at most `limit` models exist."""
+    def models(cls):
+        out = []
+        with _RealSolver(name="g3", bootstrap_with=[list(c) for c in cls]) as s:
+            for i, m in enumerate(s.enum_models()):
+                if i > limit:
+                    return None
+                m = list(m) + [-(v + 1) for v in range(len(m), N)] if len(m) < N else list(m)
+                out.append(tuple(m[:N]))
+        return out
+    a, b = models(captured), models(model_cnf)
+    if a is None or b is None:
+        return False
+    return len(set(a)) == len(a) and set(a) == set(b)
+
+
+def coq_crosscheck(ctx, items):
+    """Guard against a wrong Extract directive / driver bug vouching for the model: a sample of the driver's
+    answers (formula, backtracking count) is re-derived INSIDE Coq by vm_compute and must coincide."""
+    import subprocess, tempfile
+    if not items:
+        return
+    def znat(x):
+        return f"{x}%nat"
+    def zedges(es):
+        return "[" + "; ".join(f"({znat(u)}, {znat(v)})" for u, v in es) + "]"
+    def zcnf(f):
+        return "[" + "; ".join("[" + "; ".join(str(x) if x >= 0 else f"({x})" for x in c) + "]" for c in f) + "]"
+    body = ["From Coq Require Import List ZArith.", "From Koala Require Import Model.Cnf Model.Color.",
+            "Import ListNotations.", "Open Scope Z_scope."]
+    for kind, nv, edges, n, fixed, cnf, count in items:
+        if kind == "ec":
+            fx = "[" + "; ".join(f"({znat(a)}, {znat(b)})" for a, b in fixed) + "]"
+            body.append(f"Goal edge_color_cnf {zedges(edges)} {znat(n)} {fx} = Some {zcnf(cnf)}. Proof. vm_compute. reflexivity. Qed.")
+            body.append(f"Goal count_edge_colourings {zedges(edges)} {znat(n)} {fx} = {count}. Proof. vm_compute. reflexivity. Qed.")
+        elif kind == "vc":
+            body.append(f"Goal vertex_color_cnf {zedges(edges)} {znat(n)} = Some {zcnf(cnf)}. Proof. vm_compute. reflexivity. Qed.")
+            body.append(f"Goal count_vertex_colourings {zedges(edges)} {znat(n)} = {count}. Proof. vm_compute. reflexivity. Qed.")
+        else:
+            body.append(f"Goal dimer_cnf {znat(nv)} {zedges(edges)} = {zcnf(cnf)}. Proof. vm_compute. reflexivity. Qed.")
+            body.append(f"Goal count_dimerisations {znat(nv)} {zedges(edges)} = {count}. Proof. vm_compute. reflexivity. Qed.")
+    d = tempfile.mkdtemp(prefix="c04x", dir="/var/tmp")
+    try:
+        path = os.path.join(d, "c04_xcheck.v")
+        with open(path, "w") as fh:
+            fh.write("\n".join(body) + "\n")
+        p = subprocess.run(["timeout", "600", "coqc", "-Q", os.path.join(VERIF, "coq"), "Koala", path], cwd=d,
+                           stdout=subprocess.PIPE, stderr=subprocess.STDOUT, text=True)
+        if p.returncode != 0:
+            raise RuntimeError("extraction cross-check: the driver's answer is not what vm_compute gives inside Coq: " + p.stdout[-800:])
+        ctx.res.extra["extraction_crosscheck_goals_in_coq"] = 2 * len(items)
+    finally:
+        import shutil
+        shutil.rmtree(d, ignore_errors=True)
 
 
 # ------------------------------------------------------------------ case expansion
@@ -467,10 +536,16 @@ def evaluate(ctx, cases, label="run"):
             b = parse_cols(o["brute"])
             if len(set(b)) != len(b) or set(b) != m_list:
                 raise RuntimeError(f"model: brute force through the formula and backtracking disagree on {rc}")
+        xc = getattr(ctx, "xcheck", None)
+        if xc is not None and len(xc) < ctx.xcheck_cap and "cnf" in o and m_count is not None and f != "cl" \
+                and 2 <= int(o["maxvar"][0]) <= 12 and (len(xc) % 3 == ["ec", "vc", "dm"].index(f)):
+            xc.append((f, nv, edges, op.get("n"), op.get("fixed", []), parse_cnf(o["cnf"]), m_count))
         if m_count is not None:
             bump(sol_hist, "0" if m_count == 0 else "1" if m_count == 1 else "2-10" if m_count <= 10 else "11-100" if m_count <= 100 else ">100")
 
-        # ---- call koala
+        # ---- call koala (a runaway enumeration is cut off: no call may draw more models than valid assignments
+        #      exist, plus a margin; without a count, than the cap of the all-solutions mode)
+        lim = (m_count if m_count is not None else CAP_ENUM) + 64
         if f == "ec":
             kw = {"n_colors": op["n"], "fixed": [tuple(p) for p in op["fixed"]]}
             if op["mode"] == "all":
@@ -480,19 +555,19 @@ def evaluate(ctx, cases, label="run"):
                 kw["all_solutions"] = True
             elif op["mode"] == "first":
                 kw["n_solutions"] = op["j"]
-            out, log = spy_call(gc.edge_color, lat, **kw)
+            out, log = spy_call(gc.edge_color, lat, limit=lim, **kw)
         elif f == "vc":
             if op["all"] and (m_count is None or m_count > CAP_ENUM):
                 res.skip("all_solutions:too-many-to-enumerate")
                 continue
-            out, log = spy_call(gc.vertex_color, np.array(edges, dtype=int), n_colors=op["n"], all_solutions=op["all"])
+            out, log = spy_call(gc.vertex_color, np.array(edges, dtype=int), limit=lim, n_colors=op["n"], all_solutions=op["all"])
         elif f == "dm":
             if op["ns"] is None and (m_count is None or m_count > CAP_ENUM):
                 res.skip("all_solutions:too-many-to-enumerate")
                 continue
-            out, log = spy_call(gu.dimerise, lat, op["ns"])
+            out, log = spy_call(gu.dimerise, lat, op["ns"], limit=lim)
         else:
-            out, log = spy_call(gc.color_lattice, lat)
+            out, log = spy_call(gc.color_lattice, lat, limit=lim)
 
         # ---- K(i): clause set at the pysat boundary
         if "cnf" in o:
@@ -500,7 +575,10 @@ def evaluate(ctx, cases, label="run"):
             isolated = f == "dm" and any(len(c) == 0 for c in mc)
             if not isolated:   # CardEnc raises on an empty literal list before anything reaches the solver
                 res.traces += 1
-                if clause_set(log["clauses"]) != clause_set(mc):
+                if clause_set(log["clauses"]) != clause_set(mc) and m_count is not None and m_count <= CAP_ENUM \
+                        and projected_models_equal(log["clauses"], mc, int(o["maxvar"][0]), m_count):
+                    bump(res.extra.setdefault("K(i)", {}), "clause sets differ syntactically but are equivalent on the reserved variables")
+                elif clause_set(log["clauses"]) != clause_set(mc):
                     a, b = clause_set(log["clauses"]), clause_set(mc)
                     ctx.k_mismatch(f"{label}: clause set handed to pysat differs from the model's formula: "
                                    f"{len(a - b)} extra e.g. {sorted(map(sorted, a - b), key=str)[:2]}, "
@@ -512,7 +590,9 @@ def evaluate(ctx, cases, label="run"):
         # ---- normalise koala's answer: ("unsat",) | ("one", tuple) | ("many", [tuples]) | ("exc", e)
         kind, val = out
         ans = None
-        if kind == "exc":
+        if kind == "exc" and isinstance(val, EnumOverflow):
+            ans = ("overflow", val)
+        elif kind == "exc":
             if f in ("dm", "cl") and isinstance(val, ValueError):
                 ans = ("unsat",)
             else:
@@ -529,7 +609,7 @@ def evaluate(ctx, cases, label="run"):
                         ans = ("one", tuple(int(x) for x in np.asarray(sol).reshape(-1)))
                 elif f == "dm":
                     if val is None:
-                        ans = ("exc", TypeError("dimerise returned None"))
+                        ans = ("none",)
                     elif op["ns"] == 1:
                         a = np.asarray(val)
                         if a.ndim != 1:
@@ -557,6 +637,13 @@ def evaluate(ctx, cases, label="run"):
                 return vertex_col_bad(edges, n, c)
             return dimer_bad(nv, edges, c)
 
+        if ans[0] == "overflow":
+            res.violation(f"{name}:enumeration-count", f"{name} drew more than {lim} models from the solver while "
+                          f"{m_count if m_count is not None else 'at most ' + str(CAP_ENUM)} valid assignments exist (enumeration is not exact)", rc)
+            continue
+        if ans[0] == "none":
+            res.violation(f"{name}:returned-none", f"{name} returned None although {m_count if m_count is not None else 'some'} valid assignment(s) exist", rc)
+            continue
         if ans[0] == "exc":
             bump(stats, f"{name}:exception")
             res.violation(f"{name}:exception", f"{name} raised {type(ans[1]).__name__}: {ans[1]} "
@@ -615,8 +702,8 @@ def evaluate(ctx, cases, label="run"):
                     rv = [rv] if rk == "S" else rv
                     if rk not in ("S", "M") or any(bad(c) for c in rv):
                         raise RuntimeError(f"model: {key} invalid on {rc}")
-        if "run_single" in o and o["run_single"][0] == "U" and ans[0] != "unsat":
-            raise RuntimeError(f"model run says unsolvable, koala solved {rc}")
+        if "run_single" in o and (o["run_single"][0] == "U") != (m_count == 0):
+            raise RuntimeError(f"model: end-to-end run and backtracking counter disagree on solvability of {rc}")
         # ---- K(ii): extracted checkers on koala's outputs (bounded size)
         if not broken and E <= 70:
             for c in sols[:3]:
@@ -676,14 +763,14 @@ def build_cases(tier, seed, big=False):
     if thorough:
         cases += simple_graph_cases(5)
     else:
-        masks = sorted(set(int(x) for x in rng.integers(0, 1024, size=70)) | {1023, 0, 0b1111000000 | 0b111})
+        masks = sorted(set(int(x) for x in rng.integers(0, 1024, size=160)) | {1023, 0, 0b1111000000 | 0b111})
         cases += simple_graph_cases(5, masks)
     # exhaustive: multigraphs <= 6 edges on <= 4 vertices
     for nv in (2, 3, 4):
-        cases += multigraph_cases(nv, 6, False, rng, None if thorough else 40)
+        cases += multigraph_cases(nv, 6, False, rng, None if thorough else 70)
     cases += multigraph_cases(3, 4, True, rng, 150 if thorough else 25)
     cases += multigraph_cases(4, 5, True, rng, 300 if thorough else 25)
-    cases += random_graph_cases(rng, 150 if thorough else 24)
+    cases += random_graph_cases(rng, 150 if thorough else 36)
     for c in cases:
         deg0 = sum((a == 0) + (b == 0 and a != 0) for a, b in c["edges"])
         c["ops"] = ops_for_graph(c["nv"], c["edges"], rng, colours, deg0 <= 3, tier)
@@ -714,8 +801,10 @@ def run(ctx):
                     "non-trivial = the graph has two edges sharing a vertex (a conflict clause exists); keyed by (edges, call)")
     cardenc_contract(ctx)
     cases, lats, rng = build_cases(ctx.tier, ctx.seed)
+    ctx.xcheck, ctx.xcheck_cap = [], (18 if ctx.tier == "quick" else 90)
     evaluate(ctx, cases, "K")
     evaluate(ctx, fill_lattice_ops(lats, rng), "K(lattices)")
+    coq_crosscheck(ctx, ctx.xcheck)
     ctx.res.extra["graphs"] = len(cases)
     ctx.res.extra["lattices"] = len(lats)
 
